@@ -100,9 +100,12 @@
      C11_and_modify_chain_or_insert (chains of any length of and_modify, then
      or_insert) and C11_chain0_spec ... C11_chain11_spec (result-level
      specification of every chain of Exec.entry_chain).
-   * the equivalence with the direct operation is stated through the list
-     machine (l_insert, l_remove); that Map::insert/remove compute l_insert /
-     l_remove is Lawful3.insert_lawful / remove_lawful (C01, C03).
+   * the equivalence with the direct operation is stated, in the first part,
+     through the list machine (l_insert, l_remove).  CLOSED in the SECOND AUDIT
+     CLOSURE section: C11_entry_insert_is_insert, C11_entry_remove_vs_remove,
+     C11_entry_remove_entry_vs_remove_entry, C11_entry_get_vs_get,
+     C11_or_insert_is_direct equate the entry programs with Map::insert /
+     remove / remove_entry / get / contains_key+insert+index_mut themselves.
    ======================================================================== *)
 Require Import Model.Base Model.Slots Model.MapOps Model.EntryOps Model.Exec.
 Require Import Proofs.Hoare Proofs.Inv Proofs.Spec Proofs.Lawful Proofs.EntrySpec
@@ -1430,5 +1433,799 @@ Example C11_example_chains :
   | Ok r w' => r = [0; 3; 6; 4; 8]%N /\ log w' = [EvDrop 90] /\
                Spec.elems (self w') = [(k_ 1 5, v_ 2 7); (k_ 5 7, v_ 6 9)]
   | _ => False
+  end.
+Proof. vm_compute. repeat split; reflexivity. Qed.
+
+(* ========================================================================
+   SECOND AUDIT CLOSURE (Proofs/MoreEntry.v, sections 7-12)
+
+   (1) "same results and effects as the direct map operations": EQUATIONS
+       between an entry program and Map::insert / remove / remove_entry / get /
+       "if !contains_key { insert }; index_mut", on what a caller observes;
+   (2) chains: any list of and_modify with ARBITRARY closures followed by any
+       terminal method;
+   (3) "every reachable map state": WF and Uniq discharged from reachability;
+   (4) chain-level panic exits of Exec.entry_chain when a closure panics.
+
+   ADDITIONAL VOCABULARY
+     obs r                  what a caller observes of an outcome r: Some (result
+                            or None for a panic, the WHOLE container, the log);
+                            None for UB.  The callback state is not observed (it
+                            differs: VacantEntry::insert scans once more).
+                            C11_obs_def unfolds it.
+     ins_self ck m k v u, rm_self ck m c, rir_self m i
+                            the container (all slots) after insert_ii / after
+                            removing class c / after remove_index_read of slot i:
+                            C11_ins_self_def, C11_rm_self_def, C11_rir_self_def
+                            unfold them; C11_rm_self_elems: its content is l_remove's.
+     am_frame i m m'        what and_modify on slot i may change: m' is well
+                            formed, same capacity and length, the same key
+                            OBJECTS in the same slots, every slot other than i
+                            identical (C11_am_frame_def unfolds it).
+     and_modify_all e fs    e.and_modify(f1).and_modify(f2)...
+     mfinal2 E debug ops w0 the world after the history ops (Proofs/Dict2.v: the
+                            13 map operations, drain, iteration,
+                            entry(k).or_insert(v), extend), None on UB.
+     closure_fault sc       the script sc answers every == truthfully, no Drop or
+                            Clone panics, and closure call number sc_fa panics.
+   ======================================================================== *)
+Require Import Proofs.Dict Proofs.Dict2.
+
+(* ---------------------------------------------------------------------- *)
+(* the definitions, unfolded (all by reflexivity)                           *)
+(* ---------------------------------------------------------------------- *)
+
+Theorem C11_obs_def :
+  forall (K V T A : Type) (r : res K V T A),
+  obs r =
+  match r with
+  | Ok a w => Some (Some a, self w, log w)
+  | Panic w => Some (None, self w, log w)
+  | UB => None
+  end.
+Proof. exact (@obs_def). Qed.
+Print Assumptions C11_obs_def.
+
+Theorem C11_am_frame_def :
+  forall (K V : Type) (i : nat) (m m' : map K V),
+  am_frame i m m' <->
+  WF m' /\
+  cap m' = cap m /\
+  len m' = len m /\
+  List.map fst (Spec.elems m') = List.map fst (Spec.elems m) /\
+  (forall j : nat, j <> i -> nth_error (Spec.elems m') j = nth_error (Spec.elems m) j).
+Proof. exact (@am_frame_def). Qed.
+Print Assumptions C11_am_frame_def.
+
+Theorem C11_ins_self_def :
+  forall (K V : Type) (ck : K -> N) (m : map K V) (k : K) (v : V) (u : bool),
+  ins_self ck m k v u =
+  match find_idx ck (ck k) (Spec.elems m) with
+  | Some i =>
+      match nth_error (Spec.elems m) i with
+      | Some (k0, _) => set_slot_m m i (Some (if u then (k, v) else (k0, v)))
+      | None => m
+      end
+  | None => set_len_m (set_slot_m m (len m) (Some (k, v))) (S (len m))
+  end.
+Proof. exact (@ins_self_def). Qed.
+Print Assumptions C11_ins_self_def.
+
+Theorem C11_rir_self_def :
+  forall (K V : Type) (m : map K V) (i : nat),
+  rir_self m i =
+  (if i =? len m - 1
+   then {| len := len m - 1; slots := upd (slots m) i None |}
+   else
+    match nth_error (slots m) (len m - 1) with
+    | Some (Some q) =>
+        {| len := len m - 1; slots := upd (upd (upd (slots m) i None) (len m - 1) None) i (Some q) |}
+    | _ => m
+    end).
+Proof. exact (@rir_self_def). Qed.
+Print Assumptions C11_rir_self_def.
+
+Theorem C11_rm_self_def :
+  forall (K V : Type) (ck : K -> N) (m : map K V) (c : N),
+  rm_self ck m c = match find_idx ck c (Spec.elems m) with
+                   | Some j => rir_self m j
+                   | None => m
+                   end.
+Proof. exact (@rm_self_def). Qed.
+Print Assumptions C11_rm_self_def.
+
+Theorem C11_rm_self_elems :
+  forall (K V : Type) (ck : K -> N) (m : map K V) (c : N),
+  WF m -> Spec.elems (rm_self ck m c) = fst (l_remove ck (Spec.elems m) c).
+Proof. exact (@rm_self_elems). Qed.
+Print Assumptions C11_rm_self_elems.
+
+
+(* ---------------------------------------------------------------------- *)
+(* Finding 1.  OccupiedEntry insert / remove / remove_entry / get and        *)
+(* VacantEntry insert have the same results and effects as the direct        *)
+(* map operations on that key.  Hypotheses: lawful environment, well-formed  *)
+(* container; q is any borrowed form of k (cq q = ck k).                     *)
+(* ---------------------------------------------------------------------- *)
+
+(* entry(k) then OccupiedEntry::insert(v) / VacantEntry::insert(v)  IS
+   Map::insert(k, v): same result (old value / None / panic), same container
+   slot for slot, same log (present: the supplied key object is destroyed on
+   both sides; absent and full: both panic, value then key destroyed) *)
+
+Theorem C11_entry_insert_is_insert :
+  forall (K V Q T : Type) (E : env K V Q T) (debug : bool) (ck : K -> N) (cq : Q -> N),
+  Lawful E ck cq ->
+  forall (k : K) (v : V) (w : world K V T),
+  WF (self w) -> obs ((e <- entry_of E k ;; match e with Occupied i => o <- occ_insert i v ;; ret (Some o) | Vacant k' => _ <- vac_insert E debug k' v ;; ret None end) w) = obs (insert E debug k v w).
+Proof. exact (@entry_insert_is_insert). Qed.
+Print Assumptions C11_entry_insert_is_insert.
+
+
+(* entry(k) then OccupiedEntry::remove() (a Vacant entry is dropped) against
+   Map::remove(q): same result r, same container; the logs differ by exactly
+   one thing — the entry side has destroyed the supplied key object k FIRST
+   (entry(k) consumed it), then both destroy the stored key object k0 *)
+
+Theorem C11_entry_remove_vs_remove :
+  forall (K V Q T : Type) (E : env K V Q T) (debug : bool) (ck : K -> N) (cq : Q -> N),
+  Lawful E ck cq ->
+  forall (k : K) (q : Q) (w : world K V T),
+  WF (self w) ->
+  cq q = ck k ->
+  let r := option_map snd (snd (l_remove ck (Spec.elems (self w)) (ck k))) in
+  let evs :=
+    match snd (l_remove ck (Spec.elems (self w)) (ck k)) with
+    | Some (k0, _) => ev_drops (idK E k0)
+    | None => []
+    end in
+  obs ((e <- entry_of E k ;; match e with Occupied i => v <- occ_remove E debug i ;; ret (Some v) | Vacant k' => drop_key E k' ;; ret None end) w) =
+  Some (Some r, rm_self ck (self w) (ck k), log w ++ ev_drops (idK E k) ++ evs) /\
+  obs (remove E debug q w) = Some (Some r, rm_self ck (self w) (ck k), log w ++ evs).
+Proof. exact (@entry_remove_vs_remove). Qed.
+Print Assumptions C11_entry_remove_vs_remove.
+
+
+(* remove_entry: the stored pair is handed out on both sides, nothing but the
+   supplied key (entry side only) is destroyed *)
+
+Theorem C11_entry_remove_entry_vs_remove_entry :
+  forall (K V Q T : Type) (E : env K V Q T) (debug : bool) (ck : K -> N) (cq : Q -> N),
+  Lawful E ck cq ->
+  forall (k : K) (q : Q) (w : world K V T),
+  WF (self w) ->
+  cq q = ck k ->
+  let r := snd (l_remove ck (Spec.elems (self w)) (ck k)) in
+  obs ((e <- entry_of E k ;; match e with Occupied i => p <- occ_remove_entry debug i ;; ret (Some p) | Vacant k' => drop_key E k' ;; ret None end) w) =
+  Some (Some r, rm_self ck (self w) (ck k), log w ++ ev_drops (idK E k)) /\
+  obs (remove_entry E debug q w) = Some (Some r, rm_self ck (self w) (ck k), log w).
+Proof. exact (@entry_remove_entry_vs_remove_entry). Qed.
+Print Assumptions C11_entry_remove_entry_vs_remove_entry.
+
+
+(* OccupiedEntry::get against Map::get: the same slot, container untouched *)
+
+Theorem C11_entry_get_vs_get :
+  forall (K V Q T : Type) (E : env K V Q T) (ck : K -> N) (cq : Q -> N),
+  Lawful E ck cq ->
+  forall (k : K) (q : Q) (w : world K V T),
+  WF (self w) ->
+  cq q = ck k ->
+  let r := find_idx ck (ck k) (Spec.elems (self w)) in
+  obs ((e <- entry_of E k ;; match e with Occupied i => j <- occ_get i ;; ret (Some j) | Vacant k' => drop_key E k' ;; ret None end) w) = Some (Some r, self w, log w ++ ev_drops (idK E k)) /\
+  obs (get E q w) = Some (Some r, self w, log w).
+Proof. exact (@entry_get_vs_get). Qed.
+Print Assumptions C11_entry_get_vs_get.
+
+
+(* entry(k).or_insert(v) IS
+     if !self.contains_key(q) { self.insert(k, v); } else { drop k, v };  &mut self[q]
+   — same slot returned, same container, same log; both panic exactly when k is
+   absent and the map full, with the same log *)
+
+Theorem C11_or_insert_is_direct :
+  forall (K V Q T : Type) (E : env K V Q T) (debug : bool) (ck : K -> N) (cq : Q -> N),
+  Lawful E ck cq ->
+  forall (k : K) (q : Q) (v : V) (w : world K V T),
+  WF (self w) ->
+  cq q = ck k ->
+  obs ((e <- entry_of E k;; or_insert E debug e v) w) = obs ((b <- contains_key E q ;; (if b then drop_key E k ;; drop_val E v else (_ <- insert E debug k v ;; ret tt)) ;; index_mut E q) w).
+Proof. exact (@or_insert_is_direct). Qed.
+Print Assumptions C11_or_insert_is_direct.
+
+
+(* ---------------------------------------------------------------------- *)
+(* Finding 2.  "every entry method chain".                                  *)
+(* ---------------------------------------------------------------------- *)
+
+(* the methods on a bare entry, by definition *)
+
+Theorem C11_or_insert_with_occ_eq :
+  forall (K V Q T : Type) (E : env K V Q T) (debug : bool) (j : nat) (f : T -> option V * T),
+  or_insert_with E debug (Occupied j) f = occ_into_mut j.
+Proof. exact (@or_insert_with_occ_eq). Qed.
+Print Assumptions C11_or_insert_with_occ_eq.
+
+Theorem C11_or_insert_with_key_occ_eq :
+  forall (K V Q T : Type) (E : env K V Q T) (debug : bool) (j : nat) (f : K -> T -> option V * T),
+  or_insert_with_key E debug (Occupied j) f = occ_into_mut j.
+Proof. exact (@or_insert_with_key_occ_eq). Qed.
+Print Assumptions C11_or_insert_with_key_occ_eq.
+
+Theorem C11_or_insert_occ_eq :
+  forall (K V Q T : Type) (E : env K V Q T) (debug : bool) (j : nat) (v : V),
+  or_insert E debug (Occupied j) v = i <- occ_into_mut j;; drop_val E v;; ret i.
+Proof. exact (@or_insert_occ_eq). Qed.
+Print Assumptions C11_or_insert_occ_eq.
+
+Theorem C11_entry_key_occ_eq :
+  forall (K V T : Type) (j : nat), @entry_key K V T (Occupied j) = i <- occ_key j;; ret (inl i).
+Proof. exact (@entry_key_occ_eq). Qed.
+Print Assumptions C11_entry_key_occ_eq.
+
+Theorem C11_and_modify_vac_eq :
+  forall (K V T : Type) (k : K) (f : (@modf_t V T)), @and_modify K V T (Vacant k) f = ret (Vacant k).
+Proof. exact (@and_modify_vac_eq). Qed.
+Print Assumptions C11_and_modify_vac_eq.
+
+Theorem C11_and_modify_all_vacant_run :
+  forall (K V T : Type) (k : K) (fs : list (@modf_t V T)) (w : world K V T),
+  and_modify_all (Vacant k) fs w = Ok (Vacant k) w.
+Proof. exact (@and_modify_all_vacant_run). Qed.
+Print Assumptions C11_and_modify_all_vacant_run.
+
+
+(* the frame of a chain of and_modify with ARBITRARY closures (they may read and
+   change the callback state and may panic).  Premise `Safety3.entry_ok e m`:
+   an Occupied i designates a live slot (i < len m) — what entry(k) returns;
+   the audit's statement without it is false (and_modify uses unchecked access).
+   Normal return: the entry is the same, every closure ran once; a panic: some
+   closure (the n-th, 1 <= n <= length fs) panicked; in both cases am_frame. *)
+
+Theorem C11_and_modify_all_frame :
+  forall (K V T : Type) (fs : list (@modf_t V T)) (e : @entry K) (w : world K V T),
+  WF (self w) ->
+  Safety3.entry_ok e (self w) ->
+  wp (and_modify_all e fs)
+    (fun (e' : @entry K) (w' : world K V T) =>
+     e' = e /\
+     match e with
+     | Occupied i => am_frame i (self w) (self w') /\ logged w w' (repeat (EvCall 3) (length fs))
+     | Vacant _ => w' = w
+     end)
+    (fun w' : world K V T =>
+     match e with
+     | Occupied i =>
+         am_frame i (self w) (self w') /\
+         (exists n : nat, 1 <= n <= length fs /\ logged w w' (repeat (EvCall 3) n))
+     | Vacant _ => False
+     end) w.
+Proof. exact (@and_modify_all_frame). Qed.
+Print Assumptions C11_and_modify_all_frame.
+
+
+(* the form proposed by the audit (plus entry_ok) *)
+
+Theorem C11_and_modify_all_frame_keys :
+  forall (K V T : Type) (fs : list (@modf_t V T)) (e : @entry K) (w : world K V T),
+  WF (self w) ->
+  Safety3.entry_ok e (self w) ->
+  wp (and_modify_all e fs)
+    (fun (e' : @entry K) (w' : world K V T) =>
+     e' = e /\ WF (self w') /\ List.map fst (Spec.elems (self w')) = List.map fst (Spec.elems (self w)))
+    (fun w' : world K V T =>
+     WF (self w') /\ List.map fst (Spec.elems (self w')) = List.map fst (Spec.elems (self w))) w.
+Proof. exact (@and_modify_all_frame_keys). Qed.
+Print Assumptions C11_and_modify_all_frame_keys.
+
+Theorem C11_am_frame_slot :
+  forall (K V : Type) (i : nat) (m m' : map K V) (k0 : K) (v0 : V),
+  am_frame i m m' ->
+  nth_error (Spec.elems m) i = Some (k0, v0) -> exists v' : V, nth_error (Spec.elems m') i = Some (k0, v').
+Proof. exact (@am_frame_slot). Qed.
+Print Assumptions C11_am_frame_slot.
+
+Theorem C11_am_frame_lookup :
+  forall (K V : Type) (ck : K -> N) (i : nat) (m m' : map K V) (k0 : K) (v0 : V) (c : N),
+  am_frame i m m' ->
+  nth_error (Spec.elems m) i = Some (k0, v0) -> c <> ck k0 -> lookup ck (Spec.elems m') c = lookup ck (Spec.elems m) c.
+Proof. exact (@am_frame_lookup). Qed.
+Print Assumptions C11_am_frame_lookup.
+
+
+(* COMPOSITION.  Absent key: for EVERY terminal Tm the chain of and_modify
+   disappears — the program IS entry(k) followed by Tm, so every theorem about
+   `e <- entry_of E k ;; Tm e` on an absent key (C11_or_insert_with_vacant_exact,
+   C11_vac_insert_lawful, ...) applies verbatim *)
+
+Theorem C11_chain_vacant_skip :
+  forall (K V Q T : Type) (E : env K V Q T) (ck : K -> N) (cq : Q -> N),
+  Lawful E ck cq ->
+  forall (A : Type) (k : K) (fs : list (@modf_t V T)) (Tm : @entry K -> M K V T A) (w : world K V T),
+  WF (self w) ->
+  find_idx ck (ck k) (Spec.elems (self w)) = None ->
+  (e <- entry_of E k;; e' <- and_modify_all e fs;; Tm e') w = (e <- entry_of E k;; Tm e) w.
+Proof. exact (@chain_vacant_skip). Qed.
+Print Assumptions C11_chain_vacant_skip.
+
+
+(* Present key (slot j): the terminal runs on Occupied j in a world w1 related to
+   the start by am_frame and by the log of entry(k) and of the closures; if a
+   closure panics the terminal does not run *)
+
+Theorem C11_chain_occupied :
+  forall (K V Q T : Type) (E : env K V Q T) (ck : K -> N) (cq : Q -> N),
+  Lawful E ck cq ->
+  forall (A : Type) (k : K) (fs : list (@modf_t V T)) (Tm : @entry K -> M K V T A) (j : nat)
+    (Qn : A -> world K V T -> Prop) (Qp : world K V T -> Prop) (w : world K V T),
+  WF (self w) ->
+  find_idx ck (ck k) (Spec.elems (self w)) = Some j ->
+  (forall w1 : world K V T,
+   am_frame j (self w) (self w1) ->
+   logged w w1 (ev_drops (idK E k) ++ repeat (EvCall 3) (length fs)) -> wp (Tm (Occupied j)) Qn Qp w1) ->
+  (forall (w1 : world K V T) (n : nat),
+   am_frame j (self w) (self w1) ->
+   1 <= n <= length fs -> logged w w1 (ev_drops (idK E k) ++ repeat (EvCall 3) n) -> Qp w1) ->
+  wp (e <- entry_of E k;; e' <- and_modify_all e fs;; Tm e') Qn Qp w.
+Proof. exact (@chain_occupied). Qed.
+Print Assumptions C11_chain_occupied.
+
+
+(* the instances, present key at slot j; the panic exit is always "a closure
+   panicked" *)
+
+Theorem C11_chain_or_insert_with :
+  forall (K V Q T : Type) (E : env K V Q T) (debug : bool) (ck : K -> N) (cq : Q -> N),
+  Lawful E ck cq ->
+  forall (k : K) (fs : list (@modf_t V T)) (f : T -> option V * T) (j : nat) (w : world K V T),
+  WF (self w) ->
+  find_idx ck (ck k) (Spec.elems (self w)) = Some j ->
+  wp (e <- entry_of E k;; e' <- and_modify_all e fs;; or_insert_with E debug e' f)
+    (fun (i : nat) (w' : world K V T) =>
+     i = j /\
+     am_frame j (self w) (self w') /\ logged w w' (ev_drops (idK E k) ++ repeat (EvCall 3) (length fs)))
+    (fun w' : world K V T => am_frame j (self w) (self w') /\ exists n : nat, 1 <= n <= length fs /\ logged w w' (ev_drops (idK E k) ++ repeat (EvCall 3) n)) w.
+Proof. exact (@chain_or_insert_with). Qed.
+Print Assumptions C11_chain_or_insert_with.
+
+Theorem C11_chain_or_insert_with_key :
+  forall (K V Q T : Type) (E : env K V Q T) (debug : bool) (ck : K -> N) (cq : Q -> N),
+  Lawful E ck cq ->
+  forall (k : K) (fs : list (@modf_t V T)) (f : K -> T -> option V * T) (j : nat) (w : world K V T),
+  WF (self w) ->
+  find_idx ck (ck k) (Spec.elems (self w)) = Some j ->
+  wp (e <- entry_of E k;; e' <- and_modify_all e fs;; or_insert_with_key E debug e' f)
+    (fun (i : nat) (w' : world K V T) =>
+     i = j /\
+     am_frame j (self w) (self w') /\ logged w w' (ev_drops (idK E k) ++ repeat (EvCall 3) (length fs)))
+    (fun w' : world K V T => am_frame j (self w) (self w') /\ exists n : nat, 1 <= n <= length fs /\ logged w w' (ev_drops (idK E k) ++ repeat (EvCall 3) n)) w.
+Proof. exact (@chain_or_insert_with_key). Qed.
+Print Assumptions C11_chain_or_insert_with_key.
+
+Theorem C11_chain_key :
+  forall (K V Q T : Type) (E : env K V Q T) (ck : K -> N) (cq : Q -> N),
+  Lawful E ck cq ->
+  forall (k : K) (fs : list (@modf_t V T)) (j : nat) (w : world K V T),
+  WF (self w) ->
+  find_idx ck (ck k) (Spec.elems (self w)) = Some j ->
+  wp (e <- entry_of E k;; e' <- and_modify_all e fs;; entry_key e')
+    (fun (r : nat + K) (w' : world K V T) =>
+     r = inl j /\
+     am_frame j (self w) (self w') /\ logged w w' (ev_drops (idK E k) ++ repeat (EvCall 3) (length fs)))
+    (fun w' : world K V T => am_frame j (self w) (self w') /\ exists n : nat, 1 <= n <= length fs /\ logged w w' (ev_drops (idK E k) ++ repeat (EvCall 3) n)) w.
+Proof. exact (@chain_key). Qed.
+Print Assumptions C11_chain_key.
+
+Theorem C11_chain_get :
+  forall (K V Q T : Type) (E : env K V Q T) (ck : K -> N) (cq : Q -> N),
+  Lawful E ck cq ->
+  forall (k : K) (fs : list (@modf_t V T)) (j : nat) (w : world K V T),
+  WF (self w) ->
+  find_idx ck (ck k) (Spec.elems (self w)) = Some j ->
+  wp (e <- entry_of E k;; e' <- and_modify_all e fs;; match e' with Occupied i => j0 <- occ_get i ;; ret (Some j0) | Vacant k' => drop_key E k' ;; ret None end)
+    (fun (r : option nat) (w' : world K V T) =>
+     r = Some j /\
+     am_frame j (self w) (self w') /\ logged w w' (ev_drops (idK E k) ++ repeat (EvCall 3) (length fs)))
+    (fun w' : world K V T => am_frame j (self w) (self w') /\ exists n : nat, 1 <= n <= length fs /\ logged w w' (ev_drops (idK E k) ++ repeat (EvCall 3) n)) w.
+Proof. exact (@chain_get). Qed.
+Print Assumptions C11_chain_get.
+
+Theorem C11_chain_or_insert :
+  forall (K V Q T : Type) (E : env K V Q T) (debug : bool) (ck : K -> N) (cq : Q -> N),
+  Lawful E ck cq ->
+  forall (k : K) (fs : list (@modf_t V T)) (v : V) (j : nat) (w : world K V T),
+  WF (self w) ->
+  find_idx ck (ck k) (Spec.elems (self w)) = Some j ->
+  wp (e <- entry_of E k;; e' <- and_modify_all e fs;; or_insert E debug e' v)
+    (fun (i : nat) (w' : world K V T) =>
+     i = j /\
+     am_frame j (self w) (self w') /\
+     logged w w' (ev_drops (idK E k) ++ repeat (EvCall 3) (length fs) ++ ev_drops (idV E v)))
+    (fun w' : world K V T => am_frame j (self w) (self w') /\ exists n : nat, 1 <= n <= length fs /\ logged w w' (ev_drops (idK E k) ++ repeat (EvCall 3) n)) w.
+Proof. exact (@chain_or_insert). Qed.
+Print Assumptions C11_chain_or_insert.
+
+Theorem C11_chain_insert :
+  forall (K V Q T : Type) (E : env K V Q T) (debug : bool) (ck : K -> N) (cq : Q -> N),
+  Lawful E ck cq ->
+  forall (k : K) (fs : list (@modf_t V T)) (v : V) (j : nat) (k0 : K) (v0 : V) (w : world K V T),
+  WF (self w) ->
+  find_idx ck (ck k) (Spec.elems (self w)) = Some j ->
+  nth_error (Spec.elems (self w)) j = Some (k0, v0) ->
+  wp (e <- entry_of E k;; e' <- and_modify_all e fs;; match e' with Occupied i => o <- occ_insert i v ;; ret (Some o) | Vacant k' => _ <- vac_insert E debug k' v ;; ret None end)
+    (fun (r : option V) (w' : world K V T) =>
+     (exists v' : V, r = Some v') /\
+     am_frame j (self w) (self w') /\
+     nth_error (Spec.elems (self w')) j = Some (k0, v) /\
+     logged w w' (ev_drops (idK E k) ++ repeat (EvCall 3) (length fs))) (fun w' : world K V T => am_frame j (self w) (self w') /\ exists n : nat, 1 <= n <= length fs /\ logged w w' (ev_drops (idK E k) ++ repeat (EvCall 3) n)) w.
+Proof. exact (@chain_insert). Qed.
+Print Assumptions C11_chain_insert.
+
+Theorem C11_chain_remove_entry :
+  forall (K V Q T : Type) (E : env K V Q T) (debug : bool) (ck : K -> N) (cq : Q -> N),
+  Lawful E ck cq ->
+  forall (k : K) (fs : list (@modf_t V T)) (j : nat) (k0 : K) (v0 : V) (w : world K V T),
+  WF (self w) ->
+  find_idx ck (ck k) (Spec.elems (self w)) = Some j ->
+  nth_error (Spec.elems (self w)) j = Some (k0, v0) ->
+  wp (e <- entry_of E k;; e' <- and_modify_all e fs;; match e' with Occupied i => p <- occ_remove_entry debug i ;; ret (Some p) | Vacant k' => drop_key E k' ;; ret None end)
+    (fun (r : option (K * V)) (w' : world K V T) =>
+     exists (v' : V) (l1 : list (K * V)),
+       r = Some (k0, v') /\
+       WF (self w') /\
+       cap (self w') = cap (self w) /\
+       l1 = upd (Spec.elems (self w)) j (k0, v') /\
+       Spec.elems (self w') = swap_remove l1 j /\
+       logged w w' (ev_drops (idK E k) ++ repeat (EvCall 3) (length fs))) (fun w' : world K V T => am_frame j (self w) (self w') /\ exists n : nat, 1 <= n <= length fs /\ logged w w' (ev_drops (idK E k) ++ repeat (EvCall 3) n)) w.
+Proof. exact (@chain_remove_entry). Qed.
+Print Assumptions C11_chain_remove_entry.
+
+Theorem C11_chain_remove :
+  forall (K V Q T : Type) (E : env K V Q T) (debug : bool) (ck : K -> N) (cq : Q -> N),
+  Lawful E ck cq ->
+  forall (k : K) (fs : list (@modf_t V T)) (j : nat) (k0 : K) (v0 : V) (w : world K V T),
+  WF (self w) ->
+  find_idx ck (ck k) (Spec.elems (self w)) = Some j ->
+  nth_error (Spec.elems (self w)) j = Some (k0, v0) ->
+  wp (e <- entry_of E k;; e' <- and_modify_all e fs;; match e' with Occupied i => x <- occ_remove E debug i ;; ret (Some x) | Vacant k' => drop_key E k' ;; ret None end)
+    (fun (r : option V) (w' : world K V T) =>
+     exists (v' : V) (l1 : list (K * V)),
+       r = Some v' /\
+       WF (self w') /\
+       cap (self w') = cap (self w) /\
+       l1 = upd (Spec.elems (self w)) j (k0, v') /\
+       Spec.elems (self w') = swap_remove l1 j /\
+       logged w w' (ev_drops (idK E k) ++ repeat (EvCall 3) (length fs) ++ ev_drops (idK E k0)))
+    (fun w' : world K V T => am_frame j (self w) (self w') /\ exists n : nat, 1 <= n <= length fs /\ logged w w' (ev_drops (idK E k) ++ repeat (EvCall 3) n)) w.
+Proof. exact (@chain_remove). Qed.
+Print Assumptions C11_chain_remove.
+
+
+(* ---------------------------------------------------------------------- *)
+(* Finding 3.  QUANTIFIER "every reachable map state": the hypotheses WF     *)
+(* and Uniq are discharged — wf is the state reached from Map::new() of ANY   *)
+(* capacity n by ANY history ops, under a lawful environment.                 *)
+(* ---------------------------------------------------------------------- *)
+
+Theorem C11_reachable2_inv :
+  forall (K V Q T : Type) (E : env K V Q T) (debug : bool) (ck : K -> N) (cq : Q -> N),
+  Lawful E ck cq ->
+  forall (n : nat) (ops : list (@dop2 K V Q)) (s : T) (lg : list event),
+  exists wf : world K V T,
+    mfinal2 E debug ops {| cb := s; log := lg; self := new_map n |} = Some wf /\
+    WF (self wf) /\ Uniq ck (Spec.elems (self wf)) /\ cap (self wf) = n.
+Proof. exact (@reachable2_inv). Qed.
+Print Assumptions C11_reachable2_inv.
+
+Theorem C11_reachable2_elim :
+  forall (K V Q T : Type) (E : env K V Q T) (debug : bool) (ck : K -> N) (cq : Q -> N),
+  Lawful E ck cq ->
+  forall P : world K V T -> Prop,
+  (forall w : world K V T, WF (self w) -> Uniq ck (Spec.elems (self w)) -> P w) ->
+  forall (n : nat) (ops : list (@dop2 K V Q)) (s : T) (lg : list event),
+  exists wf : world K V T,
+    mfinal2 E debug ops {| cb := s; log := lg; self := new_map n |} = Some wf /\ P wf.
+Proof. exact (@reachable2_elim). Qed.
+Print Assumptions C11_reachable2_elim.
+
+Theorem C11_entry_of_reachable :
+  forall (K V Q T : Type) (E : env K V Q T) (debug : bool) (ck : K -> N) (cq : Q -> N),
+  Lawful E ck cq ->
+  forall (n : nat) (ops : list (@dop2 K V Q)) (s : T) (lg : list event),
+  exists wf : world K V T,
+    mfinal2 E debug ops {| cb := s; log := lg; self := new_map n |} = Some wf /\
+    (forall k : K,
+     wp (entry_of E k)
+       (fun (e : @entry K) (w' : world K V T) =>
+        self w' = self wf /\
+        cb w' = entry_cb E ck k (Spec.elems (self wf)) (cb wf) /\
+        match find_idx ck (ck k) (Spec.elems (self wf)) with
+        | Some i => e = Occupied i /\ logged wf w' (ev_drops (idK E k))
+        | None => e = Vacant k /\ log w' = log wf
+        end) (fun _ : world K V T => False) wf).
+Proof. exact (@entry_of_reachable). Qed.
+Print Assumptions C11_entry_of_reachable.
+
+Theorem C11_or_insert_reachable :
+  forall (K V Q T : Type) (E : env K V Q T) (debug : bool) (ck : K -> N) (cq : Q -> N),
+  Lawful E ck cq ->
+  forall (n : nat) (ops : list (@dop2 K V Q)) (s : T) (lg : list event),
+  exists wf : world K V T,
+    mfinal2 E debug ops {| cb := s; log := lg; self := new_map n |} = Some wf /\
+    (forall (k : K) (v : V),
+     wp (e <- entry_of E k;; or_insert E debug e v)
+       (fun (i : nat) (w' : world K V T) =>
+        WF (self w') /\
+        cap (self w') = cap (self wf) /\
+        match find_idx ck (ck k) (Spec.elems (self wf)) with
+        | Some j =>
+            i = j /\ self w' = self wf /\ logged wf w' (ev_drops (idK E k) ++ ev_drops (idV E v))
+        | None =>
+            i = length (Spec.elems (self wf)) /\
+            Spec.elems (self w') = Spec.elems (self wf) ++ [(k, v)] /\ log w' = log wf
+        end)
+       (fun w' : world K V T =>
+        self w' = self wf /\
+        logged wf w' (ev_drops (idV E v ++ idK E k)) /\
+        find_idx ck (ck k) (Spec.elems (self wf)) = None /\ len (self wf) = cap (self wf)) wf).
+Proof. exact (@or_insert_reachable). Qed.
+Print Assumptions C11_or_insert_reachable.
+
+Theorem C11_or_insert_with_reachable :
+  forall (K V Q T : Type) (E : env K V Q T) (debug : bool) (ck : K -> N) (cq : Q -> N),
+  Lawful E ck cq ->
+  forall (n : nat) (ops : list (@dop2 K V Q)) (s : T) (lg : list event),
+  exists wf : world K V T,
+    mfinal2 E debug ops {| cb := s; log := lg; self := new_map n |} = Some wf /\
+    (forall (k : K) (f : T -> option V * T),
+     match find_idx ck (ck k) (Spec.elems (self wf)) with
+     | Some j =>
+         wp (e <- entry_of E k;; or_insert_with E debug e f)
+           (fun (i : nat) (w' : world K V T) =>
+            i = j /\
+            self w' = self wf /\
+            logged wf w' (ev_drops (idK E k)) /\
+            (exists (k0 : K) (v0 : V), nth_error (Spec.elems (self w')) j = Some (k0, v0) /\ ck k0 = ck k))
+           (fun _ : world K V T => False) wf
+     | None =>
+         forall (v : V) (s' : T),
+         f (scan_cb E k (Spec.elems (self wf)) (cb wf)) = (Some v, s') ->
+         wp (e <- entry_of E k;; or_insert_with E debug e f)
+           (fun (i : nat) (w' : world K V T) =>
+            WF (self w') /\
+            cap (self w') = cap (self wf) /\
+            Spec.elems (self w') = Spec.elems (self wf) ++ [(k, v)] /\
+            i = length (Spec.elems (self wf)) /\ logged wf w' [EvCall 2] /\ len (self wf) < cap (self wf))
+           (fun w' : world K V T =>
+            self w' = self wf /\
+            logged wf w' ([EvCall 2] ++ ev_drops (idV E v ++ idK E k)) /\ len (self wf) = cap (self wf))
+           wf
+     end).
+Proof. exact (@or_insert_with_reachable). Qed.
+Print Assumptions C11_or_insert_with_reachable.
+
+Theorem C11_and_modify_others_reachable :
+  forall (K V Q T : Type) (E : env K V Q T) (debug : bool) (ck : K -> N) (cq : Q -> N),
+  Lawful E ck cq ->
+  forall (n : nat) (ops : list (@dop2 K V Q)) (s : T) (lg : list event),
+  exists wf : world K V T,
+    mfinal2 E debug ops {| cb := s; log := lg; self := new_map n |} = Some wf /\
+    (forall (k : K) (f : (@modf_t V T)),
+     wp (e <- entry_of E k;; and_modify e f)
+       (fun (_ : @entry K) (w' : world K V T) =>
+        List.map fst (Spec.elems (self w')) = List.map fst (Spec.elems (self wf)) /\
+        (forall c : N, c <> ck k -> lookup ck (Spec.elems (self w')) c = lookup ck (Spec.elems (self wf)) c))
+       (fun w' : world K V T =>
+        List.map fst (Spec.elems (self w')) = List.map fst (Spec.elems (self wf)) /\
+        (forall c : N, c <> ck k -> lookup ck (Spec.elems (self w')) c = lookup ck (Spec.elems (self wf)) c)) wf).
+Proof. exact (@and_modify_others_reachable). Qed.
+Print Assumptions C11_and_modify_others_reachable.
+
+Theorem C11_entry_remove_others_reachable :
+  forall (K V Q T : Type) (E : env K V Q T) (debug : bool) (ck : K -> N) (cq : Q -> N),
+  Lawful E ck cq ->
+  forall (n : nat) (ops : list (@dop2 K V Q)) (s : T) (lg : list event),
+  exists wf : world K V T,
+    mfinal2 E debug ops {| cb := s; log := lg; self := new_map n |} = Some wf /\
+    (forall (k : K) (j : nat),
+     find_idx ck (ck k) (Spec.elems (self wf)) = Some j ->
+     wp (e <- entry_of E k;; match e with
+                             | Occupied i => occ_remove E debug i
+                             | Vacant _ => panic
+                             end)
+       (fun (v : V) (w' : world K V T) =>
+        exists k0 : K,
+          nth_error (Spec.elems (self wf)) j = Some (k0, v) /\
+          ck k0 = ck k /\
+          logged wf w' (ev_drops (idK E k) ++ ev_drops (idK E k0)) /\
+          lookup ck (Spec.elems (self w')) (ck k) = None /\
+          (forall c : N, c <> ck k -> lookup ck (Spec.elems (self w')) c = lookup ck (Spec.elems (self wf)) c))
+       (fun _ : world K V T => False) wf).
+Proof. exact (@entry_remove_others_reachable). Qed.
+Print Assumptions C11_entry_remove_others_reachable.
+
+Theorem C11_entry_vs_direct_reachable :
+  forall (K V Q T : Type) (E : env K V Q T) (debug : bool) (ck : K -> N) (cq : Q -> N),
+  Lawful E ck cq ->
+  forall (n : nat) (ops : list (@dop2 K V Q)) (s : T) (lg : list event),
+  exists wf : world K V T,
+    mfinal2 E debug ops {| cb := s; log := lg; self := new_map n |} = Some wf /\
+    (forall (k : K) (v : V), obs ((e <- entry_of E k ;; match e with Occupied i => o <- occ_insert i v ;; ret (Some o) | Vacant k' => _ <- vac_insert E debug k' v ;; ret None end) wf) = obs (insert E debug k v wf)) /\
+    (forall (k : K) (q : Q) (v : V),
+     cq q = ck k ->
+     obs ((e <- entry_of E k;; or_insert E debug e v) wf) = obs ((b <- contains_key E q ;; (if b then drop_key E k ;; drop_val E v else (_ <- insert E debug k v ;; ret tt)) ;; index_mut E q) wf)).
+Proof. exact (@entry_vs_direct_reachable). Qed.
+Print Assumptions C11_entry_vs_direct_reachable.
+
+
+(* ---------------------------------------------------------------------- *)
+(* Finding 4.  chain-level panic exits of the interpreter's chains when the  *)
+(* closure panics (closure_fault sc, and the next closure call is the faulty *)
+(* one: n_call (cb w) = sc_fa sc).  Chains 1, 2, 3 (absent key): the closure  *)
+(* was called once, nothing is inserted, the container is untouched, and the  *)
+(* supplied key — owned by the VacantEntry — is destroyed exactly once.       *)
+(* Chain 4 (present key): the and_modify closure ran once; what it left in    *)
+(* the slot stays (the scripted closure panics before writing: the content is *)
+(* unchanged; for an arbitrary closure see C11_and_modify_stateful); the      *)
+(* supplied key was destroyed by entry(k); or_insert does not run.            *)
+(* ---------------------------------------------------------------------- *)
+
+Theorem C11_env_map_lawful_cf :
+  forall sc : script, closure_fault sc -> Lawful (env_map sc) kcls qcls.
+Proof. exact (@env_map_lawful_cf). Qed.
+Print Assumptions C11_env_map_lawful_cf.
+
+Theorem C11_chain1_closure_panics :
+  forall (debug : bool) (sc : script),
+  closure_fault sc ->
+  forall (k : key) (v : vobj) (w : world key vobj cstate),
+  WF (self w) ->
+  find_idx kcls (kcls k) (Spec.elems (self w)) = None ->
+  n_call (cb w) = sc_fa sc ->
+  wp (entry_chain debug sc k 1 v) (fun (_ : list N) (_ : world key vobj cstate) => False)
+    (fun w' : world key vobj cstate => self w' = self w /\ logged w w' [EvCall 2; EvDrop (kid k)]) w.
+Proof. exact (@chain1_closure_panics). Qed.
+Print Assumptions C11_chain1_closure_panics.
+
+Theorem C11_chain2_closure_panics :
+  forall (debug : bool) (sc : script),
+  closure_fault sc ->
+  forall (k : key) (v : vobj) (w : world key vobj cstate),
+  WF (self w) ->
+  find_idx kcls (kcls k) (Spec.elems (self w)) = None ->
+  n_call (cb w) = sc_fa sc ->
+  wp (entry_chain debug sc k 2 v) (fun (_ : list N) (_ : world key vobj cstate) => False)
+    (fun w' : world key vobj cstate => self w' = self w /\ logged w w' [EvCall 2; EvDrop (kid k)]) w.
+Proof. exact (@chain2_closure_panics). Qed.
+Print Assumptions C11_chain2_closure_panics.
+
+Theorem C11_chain3_closure_panics :
+  forall (debug : bool) (sc : script),
+  closure_fault sc ->
+  forall (k : key) (v : vobj) (w : world key vobj cstate),
+  WF (self w) ->
+  find_idx kcls (kcls k) (Spec.elems (self w)) = None ->
+  n_call (cb w) = sc_fa sc ->
+  wp (entry_chain debug sc k 3 v) (fun (_ : list N) (_ : world key vobj cstate) => False)
+    (fun w' : world key vobj cstate => self w' = self w /\ logged w w' [EvCall 2; EvDrop (kid k)]) w.
+Proof. exact (@chain3_closure_panics). Qed.
+Print Assumptions C11_chain3_closure_panics.
+
+Theorem C11_chain4_closure_panics :
+  forall (debug : bool) (sc : script),
+  closure_fault sc ->
+  forall (k : key) (v : vobj) (j : nat) (w : world key vobj cstate),
+  WF (self w) ->
+  find_idx kcls (kcls k) (Spec.elems (self w)) = Some j ->
+  n_call (cb w) = sc_fa sc ->
+  wp (entry_chain debug sc k 4 v) (fun (_ : list N) (_ : world key vobj cstate) => False)
+    (fun w' : world key vobj cstate =>
+     WF (self w') /\
+     cap (self w') = cap (self w) /\
+     Spec.elems (self w') = Spec.elems (self w) /\ logged w w' [EvDrop (kid k); EvCall 3]) w.
+Proof. exact (@chain4_closure_panics). Qed.
+Print Assumptions C11_chain4_closure_panics.
+
+(* ---------------------------------------------------------------------- *)
+(* non-vacuity of the second closure: concrete runs                         *)
+(* ---------------------------------------------------------------------- *)
+
+(* the equations of finding 1 on m3 (full, classes 5 6 7): both sides computed.
+   Present key (class 6): old value returned, supplied K90 destroyed on both
+   sides; absent key on the full map: both panic, V91 then K90 destroyed;
+   remove: the entry side's log has the extra leading EvDrop 90 *)
+Example C11_example_obs :
+  let sc0 := {| sc_adv := false; sc_seed := 0; sc_fk := 0; sc_fa := 0 |} in
+  let E := env_map sc0 in
+  let m' : map key vobj :=
+    {| len := 3; slots := [Some (k_ 1 5, v_ 2 7); Some (k_ 3 6, v_ 91 0); Some (k_ 5 7, v_ 6 9)] |} in
+  let m2 : map key vobj :=
+    {| len := 2; slots := [Some (k_ 1 5, v_ 2 7); Some (k_ 5 7, v_ 6 9); None] |} in
+  obs ((e <- entry_of E (k_ 90 6) ;;
+        match e with
+        | Occupied i => o <- occ_insert i (v_ 91 0) ;; ret (Some o)
+        | Vacant k' => _ <- vac_insert E true k' (v_ 91 0) ;; ret None
+        end) (w_of m3)) = Some (Some (Some (v_ 4 8)), m', [EvDrop 90]) /\
+  obs (insert E true (k_ 90 6) (v_ 91 0) (w_of m3)) = Some (Some (Some (v_ 4 8)), m', [EvDrop 90]) /\
+  obs ((e <- entry_of E (k_ 90 9) ;;
+        match e with
+        | Occupied i => o <- occ_insert i (v_ 91 0) ;; ret (Some o)
+        | Vacant k' => _ <- vac_insert E true k' (v_ 91 0) ;; ret None
+        end) (w_of m3)) = Some (None, m3, [EvDrop 91; EvDrop 90]) /\
+  obs (insert E true (k_ 90 9) (v_ 91 0) (w_of m3)) = Some (None, m3, [EvDrop 91; EvDrop 90]) /\
+  obs ((e <- entry_of E (k_ 90 6) ;;
+        match e with
+        | Occupied i => v <- occ_remove E true i ;; ret (Some v)
+        | Vacant k' => drop_key E k' ;; ret None
+        end) (w_of m3)) = Some (Some (Some (v_ 4 8)), m2, [EvDrop 90; EvDrop 3]) /\
+  obs (remove E true (QCls 6) (w_of m3)) = Some (Some (Some (v_ 4 8)), m2, [EvDrop 3]) /\
+  rm_self kcls m3 6 = m2 /\ ins_self kcls m3 (k_ 90 6) (v_ 91 0) false = m'.
+Proof. vm_compute. repeat split; reflexivity. Qed.
+
+(* chains with stateful / panicking closures on the middle slot of m3:
+   +100, +100, then remove_entry hands out the STORED key object K3 with 208;
+   +100, then a closure that writes 55 and panics: the terminal (or_insert_with)
+   does not run, its closure is never called, 55 stays under K3 *)
+Example C11_example_chains2 :
+  let sc0 := {| sc_adv := false; sc_seed := 0; sc_fk := 0; sc_fa := 0 |} in
+  let E := env_map sc0 in
+  match (e <- entry_of E (k_ 90 6) ;; e' <- and_modify_all e [modf_add sc0; modf_add sc0] ;;
+         match e' with
+         | Occupied i => p <- occ_remove_entry true i ;; ret (Some p)
+         | Vacant k' => drop_key E k' ;; ret None
+         end) (w_of m3) with
+  | Ok r w' => r = Some (k_ 3 6, v_ 4 208) /\ log w' = [EvDrop 90; EvCall 3; EvCall 3] /\
+               Spec.elems (self w') = [(k_ 1 5, v_ 2 7); (k_ 5 7, v_ 6 9)]
+  | _ => False
+  end /\
+  match (e <- entry_of E (k_ 90 6) ;;
+         e' <- and_modify_all e [modf_add sc0;
+                                 fun (s : cstate) (x : vobj) => ((true, v_ (vid x) 55), s)] ;;
+         or_insert_with E true e' (mk_val sc0 (v_ 91 0))) (w_of m3) with
+  | Panic w' => log w' = [EvDrop 90; EvCall 3; EvCall 3] /\
+                Spec.elems (self w') = [(k_ 1 5, v_ 2 7); (k_ 3 6, v_ 4 55); (k_ 5 7, v_ 6 9)]
+  | _ => False
+  end /\
+  (* absent key: the modifiers are skipped *)
+  (e <- entry_of E (k_ 90 9) ;; e' <- and_modify_all e [modf_add sc0; modf_add sc0] ;;
+   or_insert E true e' (v_ 91 0)) (w_of m3) =
+  (e <- entry_of E (k_ 90 9) ;; or_insert E true e (v_ 91 0)) (w_of m3).
+Proof. vm_compute. repeat split; reflexivity. Qed.
+
+(* a script whose first closure call panics: chains 1, 2, 3 on an absent key
+   (map m with a spare slot) and chain 4 on a present key (m3) *)
+Example C11_example_closure_fault :
+  let scf := {| sc_adv := false; sc_seed := 0; sc_fk := 4; sc_fa := 0 |} in
+  let m : map key vobj := {| len := 3; slots := slots m3 ++ [None] |} in
+  closure_fault scf /\ n_call (cb (w_of m)) = sc_fa scf /\
+  find_idx kcls (kcls (k_ 90 9)) (Spec.elems m) = None /\
+  match entry_chain true scf (k_ 90 9) 1 (v_ 91 0) (w_of m) with
+  | Panic w' => self w' = m /\ log w' = [EvCall 2; EvDrop 90]
+  | _ => False
+  end /\
+  match entry_chain true scf (k_ 90 9) 2 (v_ 91 0) (w_of m) with
+  | Panic w' => self w' = m /\ log w' = [EvCall 2; EvDrop 90]
+  | _ => False
+  end /\
+  match entry_chain true scf (k_ 90 9) 3 (v_ 91 0) (w_of m) with
+  | Panic w' => self w' = m /\ log w' = [EvCall 2; EvDrop 90]
+  | _ => False
+  end /\
+  match entry_chain true scf (k_ 90 6) 4 (v_ 91 0) (w_of m3) with
+  | Panic w' => Spec.elems (self w') = Spec.elems m3 /\ log w' = [EvDrop 90; EvCall 3]
+  | _ => False
+  end.
+Proof. vm_compute. repeat split; reflexivity. Qed.
+
+(* a reachable state: Map::new() of capacity 2, insert K1, entry(K90 = K1).or_insert
+   (kept: K1), insert K2, insert K3 (overflow: panics, state unchanged) *)
+Example C11_example_reachable :
+  let sc0 := {| sc_adv := false; sc_seed := 0; sc_fk := 0; sc_fa := 0 |} in
+  let ops : list (@dop2 key vobj query) :=
+    [DBase (DInsert (k_ 1 6) (v_ 2 7)); DOrInsert (k_ 90 6) (v_ 91 8);
+     DBase (DInsert (k_ 3 7) (v_ 4 9)); DBase (DInsert (k_ 5 8) (v_ 6 9))] in
+  match mfinal2 (env_map sc0) true ops {| cb := cs0; log := []; self := new_map 2 |} with
+  | Some wf => Spec.elems (self wf) = [(k_ 1 6, v_ 2 7); (k_ 3 7, v_ 4 9)] /\ cap (self wf) = 2
+  | None => False
   end.
 Proof. vm_compute. repeat split; reflexivity. Qed.
